@@ -315,7 +315,8 @@ def condEvents (c : List Lit) : List Event := c.flatMap litEvents
 def fullEvent (p : Pred) : Event := (p, List.range p.arity)
 
 def headEvents : Head → List Event
-  | .lit _ => []
+  | .lit (.pos, _) => []
+  | .lit l => litEvents l   -- `not a :- B.` uses `a` (fix 3c7ce73)
   | .disj es => es.flatMap (fun e => condEvents e.2) ++ es.flatMap (fun e => litEvents e.1)
   | .agg _ es _ => es.flatMap (fun e => condEvents e.2) ++ es.flatMap (fun e => litEvents e.1)
   | .hagg _ _ es _ => es.flatMap (fun e => condEvents e.2.2 ++ litEvents e.2.1)
